@@ -44,3 +44,45 @@ package dnsutil
 //@   assert at return#6: forall j int :: {msg.Answer[j]} 0 <= j && j < len(msg.Answer) ==> result <= ttlOf(msg.Answer[j]) && (dyntype(msg.Answer[j], *dns.RRSIG) ==> result <= sigTTL(as(msg.Answer[j], *dns.RRSIG), now))
 //@   assert at return#6: forall j int :: {msg.Ns[j]} 0 <= j && j < len(msg.Ns) ==> result <= ttlOf(msg.Ns[j]) && (dyntype(msg.Ns[j], *dns.RRSIG) ==> result <= sigTTL(as(msg.Ns[j], *dns.RRSIG), now)) && (isNegative && dyntype(msg.Ns[j], *dns.SOA) ==> result <= time.Duration(as(msg.Ns[j], *dns.SOA).Minttl) * 1000000000)
 //@   assert at return#6: forall j int :: {msg.Extra[j]} 0 <= j && j < len(msg.Extra) && hdrOf(msg.Extra[j]).Rrtype != dns.TypeOPT ==> result <= ttlOf(msg.Extra[j])
+//@
+//@ # ---- C06: DNSSEC / OPT stripping. filterOut(rrs, drop) keeps exactly the records drop rejects, never writes the
+//@ # caller's backing array, and returns the input itself when nothing is dropped
+//@ pred dnssecRR(rr dns.RR) := dyntype(rr, *dns.RRSIG) || dyntype(rr, *dns.NSEC) || dyntype(rr, *dns.NSEC3)
+//@ func isOPT
+//@   modifies nothing
+//@   ensures result == dyntype(rr, *dns.OPT)
+//@ func isDNSSEC
+//@   modifies nothing
+//@   ensures result == dnssecRR(rr)
+//@
+//@ # the verdict of calling the function value f on rr; tied to the two predicates above by the axioms below
+//@ # (justified by the verified contracts of isOPT / isDNSSEC: a function value applied is the function called)
+//@ uninterp dropVerdict(f func(dns.RR) bool, rr dns.RR) bool
+//@ axiom global drop_isDNSSEC (rr dns.RR): {dropVerdict(isDNSSEC, rr)} dropVerdict(isDNSSEC, rr) == dnssecRR(rr)
+//@ axiom global drop_isOPT (rr dns.RR): {dropVerdict(isOPT, rr)} dropVerdict(isOPT, rr) == dyntype(rr, *dns.OPT)
+//@ func param filterOut.drop
+//@   trusted
+//@   params rr
+//@   modifies nothing
+//@   ensures result == dropVerdict(self, rr)
+//@
+//@ func filterOut
+//@   modifies nothing
+//@   ensures forall i int :: {result[i]} 0 <= i && i < len(result) ==> !dropVerdict(drop, result[i])
+//@   ensures len(result) <= len(rrs)
+//@   ensures (forall i int :: {rrs[i]} 0 <= i && i < len(rrs) ==> !dropVerdict(drop, rrs[i])) ==> result == rrs
+//@   loop 1 invariant forall j int :: {rrs[j]} 0 <= j && j < rangeidx ==> !dropVerdict(drop, rrs[j])
+//@   loop 2 invariant 0 <= firstDrop && firstDrop < len(rrs) && len(kept) >= firstDrop && len(kept) <= firstDrop + rangeidx && len(kept) <= cap(kept) && cap(kept) == len(rrs) - 1
+//@   loop 2 invariant region(kept) != region(rrs)
+//@   loop 2 invariant forall j int :: {kept[j]} 0 <= j && j < len(kept) ==> !dropVerdict(drop, kept[j])
+//@   loop 2 invariant forall j int :: {rrs[j]} 0 <= j && j < len(rrs) ==> rrs[j] == old(rrs[j])
+//@
+//@ func ClearDNSSEC
+//@   requires msg != nil
+//@   modifies msg.Answer, msg.Ns
+//@   ensures result == msg
+//@   ensures !(len(msg.Question) > 0 && msg.Question[0].Qtype == dns.TypeRRSIG) ==> (forall i int :: {msg.Answer[i]} 0 <= i && i < len(msg.Answer) ==> !dnssecRR(msg.Answer[i])) && (forall i int :: {msg.Ns[i]} 0 <= i && i < len(msg.Ns) ==> !dnssecRR(msg.Ns[i]))
+//@ func ClearOPT
+//@   requires msg != nil
+//@   modifies msg.Extra
+//@   ensures result == msg && forall i int :: {msg.Extra[i]} 0 <= i && i < len(msg.Extra) ==> !dyntype(msg.Extra[i], *dns.OPT)
